@@ -336,16 +336,27 @@ Lemma on_data_origin (nd : node) src cid dest org data rest ci h0 :
   on_data nd src (n_prefix nd ++ [1] ++ be_encode 4 cid ++ rest)
   = Ok (nd,
         if could_be_ipv8 data && negb (is_e2e (c_ctype ci)) then
-          if bytes_eqb (n_prefix nd) (slice data None (Some 22)) then [Reinject org data cid]
+          if bytes_eqb (n_prefix nd) (slice data None (Some 22)) then
+            match idx data 22 with
+            | Ok m => if existsb (Z.eqb m) (n_data_ids nd) then [Reinject org data cid] else []
+            | Raise _ => []
+            end
           else if n_tunnel_ep nd then [NotifyOther org data] else []
         else [RawData cid org data]).
 Proof.
   intros Hp Hc H1 H2 H3 Hpk Hci Hh Ha. unfold M04_onion.on_data.
   rewrite (on_data_decode nd cid dest org data rest) by assumption. cbn [bind].
   rewrite Hci, Hh. cbn [bind]. rewrite Ha, addr_eqb_refl.
-  destruct (could_be_ipv8 data && negb (is_e2e (c_ctype ci))); [|reflexivity].
-  destruct (bytes_eqb (n_prefix nd) (slice data None (Some 22))); [reflexivity|].
-  destruct (n_tunnel_ep nd); reflexivity.
+  destruct (could_be_ipv8 data && negb (is_e2e (c_ctype ci))) eqn:Ecb; [|reflexivity].
+  destruct (bytes_eqb (n_prefix nd) (slice data None (Some 22))).
+  - apply andb_true_iff in Ecb as [Ecb _]. unfold could_be_ipv8 in Ecb.
+    apply andb_true_iff in Ecb as [Ecb _]. apply andb_true_iff in Ecb as [Ecb _].
+    unfold idx. destruct (22 <? 0) eqn:E0; [lia|].
+    destruct ((22 <? 0) || (blen data <=? 22)) eqn:E1; [lia|].
+    destruct (nth_error data (Z.to_nat 22)) as [m|] eqn:En.
+    + cbn [bind]. destruct (existsb (Z.eqb m) (n_data_ids nd)); reflexivity.
+    + apply nth_error_None in En. unfold blen in Ecb. lia.
+  - destruct (n_tunnel_ep nd); reflexivity.
 Qed.
 
 End Endpoint.
